@@ -39,9 +39,13 @@ type ingU struct {
 	N  int    `json:"n"`
 }
 
+// ingFrame: Ts is the source clock as it runs on, three 16-bit limbs (48 bits); what is written on
+// the wire is Ts modulo the width of the field (RTP timestamp 2^32, PES PTS/DTS 2^33, AvPacket the
+// whole value).  D = PTS - DTS in ticks (PS with a DTS field).
 type ingFrame struct {
 	Trk string `json:"trk"`
 	Ts  []int  `json:"ts"`
+	D   int    `json:"d"`
 	Us  []ingU `json:"us"`
 }
 
@@ -68,6 +72,7 @@ type ingPs struct {
 	Sys  bool `json:"sys"`  // system header present
 	Psm  bool `json:"psm"`  // program stream map present
 	Join bool `json:"join"` // no pack header of its own: the PES follow the previous pack
+	Dts  bool `json:"dts"`  // the PES that carry a PTS carry a DTS too (PTS_DTS_flags = 3)
 	Cut  int  `json:"cut"`  // > 0: the pack goes into two RTP packets, cut after 1 + (Cut-1) mod (len-1) bytes
 }
 
@@ -233,7 +238,16 @@ func ingAdts(a []int, raw []byte) []byte {
 	return append(h, raw...)
 }
 
-func ingTs(l []int) uint32 { return proj.FromLimbs(l) }
+// ingTs: the source clock from its limbs (most significant first).
+func ingTs(l []int) uint64 {
+	v := uint64(0)
+	for _, x := range l {
+		v = v<<16 | uint64(x&0xffff)
+	}
+	return v
+}
+
+const ingPsMask = uint64(1)<<33 - 1
 
 // ---------------------------------------------------------------------------- observer side
 
@@ -591,7 +605,7 @@ func ingRtpPackets(sc *ingScenario) (pk [][]byte, trk []string) {
 		}
 		// marker: last packet of the frame
 		last := i+1 == len(sc.Plan) || sc.Plan[i+1].F != p.F
-		pk = append(pk, proj.RtpWrap(last, pt, seq[f.Trk]&0xffff, ingTs(f.Ts), ssrc, pl))
+		pk = append(pk, proj.RtpWrap(last, pt, seq[f.Trk]&0xffff, uint32(ingTs(f.Ts)), ssrc, pl))
 		trk = append(trk, f.Trk)
 		seq[f.Trk]++
 	}
@@ -725,15 +739,23 @@ func ingRtsp(sc *ingScenario, g *logic.Group, stream string, sub *MemConn) (bad 
 // ingPsBytes writes the frames into program stream packs and slices them into RTP packets.
 func ingPsPackets(sc *ingScenario) [][]byte {
 	var packs [][]byte
-	var pts []uint32
+	var pts []uint64
 	var cs []int
 	var cuts []int
 	for _, pf := range sc.Ps {
 		f := &sc.Frames[pf.F-1]
-		t := ingTs(f.Ts)
+		t := ingTs(f.Ts) & ingPsMask
+		dts := int64(-1)
+		if pf.Dts {
+			dts = int64((ingTs(f.Ts) - uint64(f.D)) & ingPsMask)
+		}
 		var b []byte
 		if !pf.Join || len(packs) == 0 {
-			b = proj.PsPackHeader(uint64(t), pf.F%3)
+			scr := t
+			if dts >= 0 {
+				scr = uint64(dts)
+			}
+			b = proj.PsPackHeader(scr, pf.F%3)
 		}
 		if pf.Sys {
 			b = append(b, proj.PsSystemHeader(sc.Ac != "none")...)
@@ -757,7 +779,11 @@ func ingPsPackets(sc *ingScenario) [][]byte {
 			}
 		}
 		m := pf.M
-		for m > 0 && (len(es)+m-1)/m > proj.PsPesMax(true) {
+		dtsLen := 0
+		if pf.Dts {
+			dtsLen = 5
+		}
+		for m > 0 && (len(es)+m-1)/m > proj.PsPesMax(true)-dtsLen {
 			m++
 		}
 		var parts [][]byte
@@ -765,6 +791,9 @@ func ingPsPackets(sc *ingScenario) [][]byte {
 			// as many full-size PES packets (PES_packet_length 0xFFFF) as fit, then the rest
 			for len(es) > 0 {
 				n := proj.PsPesMax(len(parts) == 0 || pf.Pall)
+				if len(parts) == 0 || pf.Pall {
+					n -= dtsLen
+				}
 				if n > len(es) {
 					n = len(es)
 				}
@@ -775,11 +804,11 @@ func ingPsPackets(sc *ingScenario) [][]byte {
 			parts = proj.EvenCut(es, m)
 		}
 		for i, part := range parts {
-			p := int64(-1)
 			if i == 0 || pf.Pall {
-				p = int64(t)
+				b = append(b, proj.PsPesPd(sid, int64(t), dts, part)...)
+			} else {
+				b = append(b, proj.PsPes(sid, -1, part)...)
 			}
-			b = append(b, proj.PsPes(sid, p, part)...)
 		}
 		if pf.Join && len(packs) > 0 {
 			packs[len(packs)-1] = append(packs[len(packs)-1], b...)
@@ -810,7 +839,7 @@ func ingPsPackets(sc *ingScenario) [][]byte {
 			}
 		}
 		for j, part := range parts {
-			pk = append(pk, proj.RtpWrap(j == len(parts)-1, 96, seq&0xffff, pts[i], 0x0badf00d, part))
+			pk = append(pk, proj.RtpWrap(j == len(parts)-1, 96, seq&0xffff, uint32(pts[i]), 0x0badf00d, part))
 			seq++
 		}
 	}
